@@ -270,7 +270,8 @@ deriving DecidableEq, Repr
 
 /-- a consumer suspended in `queue.get()`: woken by an observation point that queued something - frames, or the
     end-of-stream marker `close()` leaves when the reader task dies; looks at what is queued; goes on waiting (after
-    the `_is_closed` test) when the awaited frame is not there -/
+    the `_is_closed` test) when the awaited frame is not there.  The caller's timer wins a tie with the protocol
+    timer (it was armed first): `tmo ≤ ackTimeoutMs` below. -/
 def block (c : Cfg) (p : Frame → Bool) (deadline : Nat) : St → List Ev → WaitRes × St × List Ev
   | s, [] => (.timeout, { s with now := max s.now deadline }, [])
   | s, e :: es =>
@@ -280,7 +281,11 @@ def block (c : Cfg) (p : Frame → Bool) (deadline : Nat) : St → List Ev → W
       if e.frames.isEmpty && !e.died then block c p deadline s1 es
       else
         match findSplit p s1.queue with
-        | some (pre, f, post) => (.got f, { s1 with queue := requeueFront pre post }, es)
+        | some (pre, f, post) =>
+          -- a consumer woken on a connection that the reader task closed meanwhile still receives the frame it was
+          -- woken with (the first one queued since it blocked), but `read_frame_unsafe` refuses to wait again
+          if e.died && !(e.frames.head?.any p) then (.conn, s1, es)
+          else (.got f, { s1 with queue := requeueFront pre post }, es)
         | none => if s1.closed then (.conn, s1, es) else block c p deadline s1 es
 
 def wait (c : Cfg) (p : Frame → Bool) (deadline : Nat) (s : St) (evs : List Ev) : WaitRes × St × List Ev :=
@@ -328,7 +333,7 @@ def writeBody (c : Cfg) (data : Bytes) (tmo : Nat) (s : St) (evs : List Ev) : Op
     | (.got _, s1, rest) => (.ok, s1, rest)
     | (.conn, s1, rest) => (.conn, s1, rest)
     | (.timeout, s1, rest) =>
-      if tmo < ackTimeoutMs then (.timeout, s1, rest) else (.conn, { s1 with closed := true }, rest)
+      if tmo ≤ ackTimeoutMs then (.timeout, s1, rest) else (.conn, { s1 with closed := true }, rest)
 
 def readBody (c : Cfg) (tmo : Nat) (s : St) (evs : List Ev) : OpRes × St × List Ev :=
   match wait c (isDiagFor c) (s.now + tmo) s evs with
@@ -357,7 +362,7 @@ def connectBody (c : Cfg) (atype : UInt8) (tmo : Nat) (s : St) (evs : List Ev) :
   | (.got _, s1, rest) => (.conn, s1, rest)
   | (.conn, s1, rest) => (.conn, s1, rest)
   | (.timeout, s1, rest) =>
-    if tmo < raTimeoutMs then (.timeout, s1, rest) else (.conn, { s1 with closed := true }, rest)
+    if tmo ≤ raTimeoutMs then (.timeout, s1, rest) else (.conn, { s1 with closed := true }, rest)
 
 /-- `DoIPTransport.connect(target, timeout)` on a fresh TCP connection: routing activation -/
 def opConnect (c : Cfg) (atype : UInt8) (tmo : Nat) (arr : List (Nat × Bytes)) : OpRes × Nat × St :=
